@@ -24,6 +24,8 @@ def main():
     if "--tier" in sys.argv:
         tier = sys.argv[sys.argv.index("--tier") + 1]
     run_all = "--all" in sys.argv
+    confirm_only = "--confirm-only" in sys.argv
+    detect_only = "--detect-only" in sys.argv
     wt = f"/tmp/seed/{prop}"
     src = f"{wt}/SEED/{variant}"
     dest = f"/verif/seeded/{prop}-{variant}"
@@ -33,7 +35,9 @@ def main():
     demo = src + "/demo.rs"
     meta = {"property": prop, "variant": variant, "ran": []}
     confirmed = None
-    if os.path.isdir(wt):
+    if os.path.exists(f"{dest}/meta.json"):
+        confirmed = json.load(open(f"{dest}/meta.json")).get("confirmed_in_scratch_worktree")
+    if os.path.isdir(wt) and not detect_only:
         run("git checkout -- . && git clean -fdq tests", wt)
         rc, out = run(f"git apply --check {patch}", wt)
         if rc != 0:
@@ -48,7 +52,7 @@ def main():
         featarg = ("--features " + ",".join(feats)) if feats else ""
         tname = f"seed_demo_{variant}"
         run(f"git apply {patch}", wt)
-        rc_suite, out_suite = run("cargo test --offline 2>&1 | grep -E '^test result|FAILED|panicked|error' | head -20", wt)
+        rc_suite, out_suite = run("cargo test --offline 2>&1 | grep -E '^test result|FAILED|^error' | head -20", wt)
         suite_ok = "FAILED" not in out_suite and "error" not in out_suite and out_suite.count("test result: ok") >= 3
         meta["ran"].append({"cmd": "cargo test --offline (patched scratch worktree)", "result": out_suite.strip().splitlines()})
         shutil.copy(demo, f"{wt}/tests/{tname}.rs")
@@ -64,9 +68,19 @@ def main():
         meta["confirmed_in_scratch_worktree"] = confirmed
         print(f"[{prop}-{variant}] suite passes with patch: {suite_ok}; demo fails with patch: {demo_fails_with}; demo passes without: {demo_passes_without}")
         if not confirmed:
-            print(out_suite[-1500:])
-            print(out_with[-1500:])
-            print(out_without[-800:])
+            print(out_suite[-800:])
+            print("\n".join(l for l in out_with.splitlines() if "test result" in l or "error" in l)[-600:])
+            print("\n".join(l for l in out_without.splitlines() if "test result" in l or "error" in l)[-600:])
+    if confirm_only:
+        if confirmed:
+            os.makedirs(dest, exist_ok=True)
+            for f in ("patch.diff", "demo.rs", "notes.md"):
+                if os.path.exists(f"{src}/{f}") and os.path.abspath(src) != os.path.abspath(dest):
+                    shutil.copy(f"{src}/{f}", f"{dest}/{f}")
+            old = json.load(open(f"{dest}/meta.json")) if os.path.exists(f"{dest}/meta.json") else {}
+            old.update(meta)
+            json.dump(old, open(f"{dest}/meta.json", "w"), indent=1)
+        return
     # run the checks against /repo with the patch applied
     lock = open("/tmp/seedtest.lock", "w")
     fcntl.flock(lock, fcntl.LOCK_EX)
